@@ -1098,6 +1098,8 @@ func main() {
 	os.Exit(run())
 }
 
+func os_stderr() *os.File { return os.Stderr }
+
 func run() int {
 	// the live heap is tiny (the alphabets) while every round trip allocates: let the heap grow between collections
 	gcp := 800
@@ -1123,6 +1125,11 @@ func run() int {
 
 	// ---- phase 0: properly signed fixtures built with the harness' own constructors
 	if code := fixtures(total, &seqBase); code != 0 {
+		return code
+	}
+
+	// ---- phase 0b: the storage read path of a real ledger (boundary vertices written to the checkpoint storage)
+	if code := storagePart(rep); code != 0 {
 		return code
 	}
 
@@ -1513,8 +1520,12 @@ func replay(path string) int {
 		return 2
 	}
 	if len(v.Witness.Spec) == 0 || (v.Witness.Kind != "vertex" && v.Witness.Kind != "transaction") {
-		fmt.Fprintln(os.Stderr, "c19: witness has no spec (fixture, spice or balance witnesses are self-describing)")
-		return 2
+		// fixture, storage-path, spice and balance witnesses: replayed by running the check again and looking for the key
+		if err := common.ReplayByRerun(path); err != nil {
+			fmt.Fprintln(os.Stderr, err)
+			return 2
+		}
+		return run()
 	}
 	var s spec
 	for i, x := range v.Witness.Spec {
